@@ -533,12 +533,18 @@ func (ex *Exec) havocAll(st *State, external bool) {
 
 type ModSet struct {
 	heaps    map[string]string // heap name -> sort
+	written  map[string]bool   // heaps written through existing pointers (not merely by fresh allocations)
 	all      bool              // unknown in-module effects
 	ext      bool              // unknown external callee
 	cellsAll bool
 }
 
-func newModSet() *ModSet { return &ModSet{heaps: map[string]string{}} }
+func newModSet() *ModSet { return &ModSet{heaps: map[string]string{}, written: map[string]bool{}} }
+
+// write records a store through an existing pointer; alloc records the
+// initialisation of a freshly allocated object/region (older ones untouched).
+func (m *ModSet) write(name, sort string) { m.heaps[name] = sort; m.written[name] = true }
+func (m *ModSet) alloc(name, sort string) { m.heaps[name] = sort }
 
 var modCache = map[*ssa.Function]*ModSet{}
 
@@ -568,6 +574,9 @@ func (m *ModSet) merge(o *ModSet) {
 	for k, v := range o.heaps {
 		m.heaps[k] = v
 	}
+	for k := range o.written {
+		m.written[k] = true
+	}
 	m.all = m.all || o.all
 	m.ext = m.ext || o.ext
 }
@@ -579,7 +588,7 @@ func (ex *Exec) instrMods(ins ssa.Instruction, ms *ModSet, depth int) {
 		case *ssa.FieldAddr:
 			if s, sty, ok := structOf(a.X.Type()); ok {
 				f := s.Field(a.Field)
-				ms.heaps[fieldHeapName(sty, f)] = ArraySort(sortOf(f.Type()))
+				ms.write(fieldHeapName(sty, f), ArraySort(sortOf(f.Type())))
 			}
 		case *ssa.IndexAddr:
 			var elem types.Type
@@ -593,7 +602,7 @@ func (ex *Exec) instrMods(ins ssa.Instruction, ms *ModSet, depth int) {
 			}
 			if elem != nil {
 				es := sortOf(elem)
-				ms.heaps[memName(es)] = memSort(es)
+				ms.write(memName(es), memSort(es))
 			}
 		case *ssa.Alloc, *ssa.FreeVar:
 			if _, isFV := a.(*ssa.FreeVar); isFV {
@@ -603,17 +612,17 @@ func (ex *Exec) instrMods(ins ssa.Instruction, ms *ModSet, depth int) {
 			if et, ok := derefPtr(x.Addr.Type()); ok {
 				if arr, ok := et.Underlying().(*types.Array); ok {
 					es := sortOf(arr.Elem())
-					ms.heaps[memName(es)] = memSort(es)
+					ms.write(memName(es), memSort(es))
 				}
 			}
 		case *ssa.Global:
 			et := a.Type().Underlying().(*types.Pointer).Elem()
-			ms.heaps["V|"+a.Pkg.Pkg.Path()+"."+a.Name()] = sortOf(et)
+			ms.write("V|"+a.Pkg.Pkg.Path()+"."+a.Name(), sortOf(et))
 		default:
 			if et, ok := derefPtr(x.Addr.Type()); ok {
 				if arr, ok := et.Underlying().(*types.Array); ok {
 					es := sortOf(arr.Elem())
-					ms.heaps[memName(es)] = memSort(es)
+					ms.write(memName(es), memSort(es))
 					return
 				}
 			}
@@ -670,7 +679,7 @@ func (ex *Exec) callMods(c *ssa.CallCommon, ms *ModSet, depth int) {
 			}
 			if elem != nil {
 				es := sortOf(elem)
-				ms.heaps[memName(es)] = memSort(es)
+				ms.write(memName(es), memSort(es))
 			}
 		}
 		return
@@ -678,7 +687,7 @@ func (ex *Exec) callMods(c *ssa.CallCommon, ms *ModSet, depth int) {
 	key, fn := ex.calleeKey(nil, c)
 	if _, ok := libModels[key]; ok {
 		for _, h := range libModelMods[key] {
-			ms.heaps[h[0]] = h[1]
+			ms.write(h[0], h[1])
 		}
 		return
 	}
@@ -714,16 +723,16 @@ func (ex *Exec) modsOfClauses(ct *Contract, ms *ModSet) {
 			ms.ext = true
 		case strings.HasPrefix(m, "$"):
 			if g := ex.db.Ghosts[m]; g != nil {
-				ms.heaps["g|"+m] = g.Sort
+				ms.write("g|"+m, g.Sort)
 			}
 		case strings.Contains(m, ".$"):
 			name := m[strings.LastIndex(m, ".$")+1:]
 			if g := ex.db.Ghosts[name]; g != nil {
-				ms.heaps["G|"+name] = ArraySort(g.Sort)
+				ms.write("G|"+name, ArraySort(g.Sort))
 			}
 		case strings.HasSuffix(m, "]") || strings.HasPrefix(m, "*"):
 			// slice window or array pointee: byte memory unless stated otherwise
-			ms.heaps[memName(SortInt)] = memSort(SortInt)
+			ms.write(memName(SortInt), memSort(SortInt))
 		default:
 			// x.f : resolved at the call site by havocLvalue; here be coarse
 			ms.fieldsByName(ex, m)
@@ -741,7 +750,7 @@ func (m *ModSet) fieldsByName(ex *Exec, lv string) {
 	found := false
 	for name, info := range allFieldHeaps {
 		if strings.HasSuffix(name, "|"+fname) {
-			m.heaps[name] = info
+			m.write(name, info)
 			found = true
 		}
 	}
@@ -759,7 +768,14 @@ func (ex *Exec) applyModSet(st *State, ms *ModSet) {
 		return
 	}
 	for name, sort := range ms.heaps {
-		st.havocHeap(name, sort)
+		old := st.heap(name, sort)
+		nw := st.havocHeap(name, sort)
+		if !ms.written[name] && strings.HasPrefix(sort, "(Array Int ") {
+			// only fresh allocations initialise this heap: everything that
+			// existed before keeps its content
+			st.emit(fmt.Sprintf("(assert (forall ((r Int)) (! (=> (< r %s) (= (select %s r) (select %s r))) :pattern ((select %s r)))))",
+				st.allocCtr.S, nw.S, old.S, nw.S))
+		}
 	}
 	if ms.ext {
 		ex.havocAll(st, true)
@@ -1205,3 +1221,103 @@ func (ex *Exec) constString(st *State, v Val) (string, bool) {
 }
 
 var _ = constant.MakeBool
+
+func init() {
+	// fmt.Fprintf with a constant format made of literal text and %s verbs
+	// applied to string / []byte arguments: the written bytes are known.
+	libModels["fmt.Fprintf"] = func(ex *Exec, st *State, fr *Frame, args []Val, sig *types.Signature, pos token.Pos) []Val {
+		intT := types.Typ[types.Int]
+		errT := types.Universe.Lookup("error").Type()
+		n := ex.havocVal(st, "n_Fprintf", intT)
+		e := ex.havocVal(st, "err_Fprintf", errT)
+		if len(args) < 2 || args[0].Kind != VTerm || args[0].T.Sort != SortIface {
+			ex.havocAll(st, true)
+			return []Val{n, e}
+		}
+		w := args[0].T
+		g := ex.db.Ghosts["$out"]
+		if g == nil {
+			return []Val{n, e}
+		}
+		hn := "G|$out"
+		h := st.heap(hn, ArraySort(g.Sort))
+		oldOut := Select(h, IfVal(w))
+		var text Term
+		known := false
+		if format, ok := ex.constString(st, args[1]); ok {
+			text, known = ex.renderFormat(st, format, args)
+		}
+		if !known {
+			text = st.fresh("fmtout", SortBytes)
+		}
+		written := st.fresh("fmtwritten", SortInt)
+		st.assume(And(Le(IntLit(0), written), Le(written, BLen(text))))
+		st.assume(Implies(Eq(e.T, NilIface), Eq(written, BLen(text))))
+		st.assume(Eq(n.T, written))
+		st.setHeap(hn, Store(h, IfVal(w), BCat(oldOut, BSub(text, IntLit(0), written))))
+		return []Val{n, e}
+	}
+	libModelMods["fmt.Fprintf"] = [][2]string{{"G|$out", ArraySort(SortBytes)}}
+}
+
+// renderFormat handles formats consisting of literal text and plain %s verbs
+// whose operands are strings or byte slices.
+func (ex *Exec) renderFormat(st *State, format string, args []Val) (Term, bool) {
+	var parts []Term
+	argi := 0
+	lit := ""
+	flush := func() {
+		if lit != "" {
+			parts = append(parts, st.strLit(lit))
+			lit = ""
+		}
+	}
+	var sl Term
+	if len(args) >= 3 && args[2].Kind == VTerm && args[2].T.Sort == SortSlice {
+		sl = args[2].T
+	}
+	for i := 0; i < len(format); i++ {
+		c := format[i]
+		if c != '%' {
+			lit += string(c)
+			continue
+		}
+		if i+1 >= len(format) {
+			return Term{}, false
+		}
+		i++
+		switch format[i] {
+		case '%':
+			lit += "%"
+		case 's':
+			if sl.S == "" {
+				return Term{}, false
+			}
+			flush()
+			el := Select(ex.regionArr(st, nil, SlRg(sl), SortIface), Add(SlOff(sl), IntLit(int64(argi))))
+			argi++
+			// the operand is a boxed string or []byte: its text
+			strTy := IntLit(int64(typeID(types.Typ[types.String])))
+			bsTy := IntLit(int64(typeID(types.NewSlice(types.Typ[types.Uint8]))))
+			sfn := ex.boxFn(st, SortBytes)
+			lfn := ex.boxFn(st, SortSlice)
+			asStr := app(SortBytes, "un"+sfn, IfVal(el))
+			asSl := app(SortSlice, "un"+lfn, IfVal(el))
+			t := st.fresh("fmtarg", SortBytes)
+			st.assume(Implies(Eq(IfTy(el), strTy), Eq(t, asStr)))
+			st.assume(Implies(Eq(IfTy(el), bsTy), Eq(t, ex.bytesOfSlice(st, nil, asSl))))
+			parts = append(parts, t)
+		default:
+			return Term{}, false
+		}
+	}
+	flush()
+	if len(parts) == 0 {
+		return BEmpty, true
+	}
+	t := parts[len(parts)-1]
+	for i := len(parts) - 2; i >= 0; i-- {
+		t = BCat(parts[i], t)
+	}
+	return t, true
+}
